@@ -1007,8 +1007,8 @@ Lemma parse_start_line_no_panic l : parse_start_line l <> Panic.
 Proof.
   unfold parse_start_line, parse_status_line, parse_request_line.
   destruct (has_prefix (s2b "SIP/") l).
-  - destruct (fields l) as [|v [|c [|x r]]]; try discriminate. destruct (atoi c); discriminate.
-  - destruct (fields l) as [|m [|u [|v [|x r]]]]; try discriminate.
+  - destruct (fields_go l) as [|v [|c [|x r]]]; try discriminate. destruct (atoi c); discriminate.
+  - destruct (fields_go l) as [|m [|u [|v [|x r]]]]; try discriminate.
     unfold Uri.parse_addr_spec, Uri.parse_addr_spec_with.
     destruct (has_prefix (s2b "sip:") u || has_prefix (s2b "sips:") u)%bool; [|discriminate].
     unfold Uri.parse_sip_uri_with.
